@@ -25,6 +25,8 @@ static Verdict run_c01(const Case &c)
     v.classes.push_back("padded_len_multiple_of_chunk");
   if ((uint64_t)e.T > nch)
     v.classes.push_back("T>chunks");
+  if (nch > 256)
+    v.classes.push_back(nch > 65536 ? "more_than_65536_chunks" : "more_than_256_chunks");
   if (e.s1.kind || e.s2.kind)
     v.classes.push_back("non_canonical_schedule");
   {
@@ -171,6 +173,25 @@ static void fixed_c01(Ctx &ctx)
         }
     ctx.stats.info["production_size_runs"] = "k*16MiB+d, k in 1..3 with d in {-17,-16,-15,-1,0,1}, k = 5 (a refilled buffer) and 9 with d in {0,1}, CLI binary with the guard off, reference decrypts the output";
     return;
+  }
+  // 65 540 chunks of 16 bytes through 3 / 7 buffers: counters of 8 and 16 bits wrap inside one run
+  for (int T : {3, 7})
+  {
+    if (!mine(ctx, i++))
+      continue;
+    Case c;
+    c.seti("plen", 16 * 65540 + 3 + T);
+    c.set("pseed", std::to_string(4242 + T));
+    c.seti("pstyle", 0);
+    c.setb("key", expand(77 + T, 16, 0));
+    c.set("seed", hex(bytes{'l', 'o', 'n', 'g'}));
+    c.seti("cmode", T == 3 ? 2 : 1);
+    c.seti("hmode", T % 3);
+    c.seti("T", T);
+    c.seti("chunk", 16);
+    c.set("sched", "k0");
+    c.set("sched2", "k0");
+    eval_fixed(*p, ctx, c);
   }
   for (int chunk : {16, 64})
     for (int T : {1, 2, 3, 16})
